@@ -191,4 +191,226 @@ theorem predB_ofCompound (c : Compound) (hc : compoundOk c = true) (e : Elem) :
   unfold Predicate.ofCompound
   rw [predB_foldl e c.reverse {} (by simpa [compoundOk] using hc)]
   simp [predB, matchesCompound_eq_all]
+
+/-! ## DenseHashSet membership -/
+
+theorem DenseHashSet.mem_insert (l : List Nat) (v x : Nat) :
+    x ∈ DenseHashSet.insert l v ↔ x = v ∨ x ∈ l := by
+  induction l with
+  | nil => simp [DenseHashSet.insert]
+  | cons y ys ih =>
+    unfold DenseHashSet.insert
+    by_cases h1 : v < y
+    · simp [h1]
+    · by_cases h2 : v = y
+      · subst h2; simp
+      · have : (v == y) = false := by simp [h2]
+        simp only [h1, if_false, this, Bool.false_eq_true, List.mem_cons, ih]
+        constructor
+        · rintro (h | h | h) <;> simp [h]
+        · rintro (h | h | h) <;> simp [h]
+
+theorem DenseHashSet.mem_union (a b : List Nat) (x : Nat) :
+    x ∈ DenseHashSet.union a b ↔ x ∈ a ∨ x ∈ b := by
+  unfold DenseHashSet.union
+  induction b generalizing a with
+  | nil => simp
+  | cons y ys ih =>
+    simp only [List.foldl_cons, ih, DenseHashSet.mem_insert, List.mem_cons]
+    constructor
+    · rintro ((h | h) | h) <;> simp [h]
+    · rintro (h | h | h) <;> simp [h]
+
+/-! ## what a with-attributes pass adds to the context -/
+
+/-- the instruction at `addr` exists and matches; `b` is its branch -/
+def Vm.HoldsAt (vm : Vm) (st : SelectorState) (name : Bytes) (m : AttributeMatcher) (addr : Nat)
+    (b : ExecutionBranch) : Prop :=
+  ∃ i, vm.fetch addr = .ok i ∧ i.exec st name m = .ok (some b)
+
+/-- `ctx'` is `ctx` plus the branches `P` -/
+structure Adds (ctx ctx' : ExecutionCtx) (P : ExecutionBranch → Prop) : Prop where
+  frame : ctx'.SameFrame ctx
+  ids : ∀ i, i ∈ ctx'.stackItem.matchedIds ↔ i ∈ ctx.stackItem.matchedIds ∨ ∃ b, P b ∧ i ∈ b.matchedIds
+  jumps : ctx.withContent = true → ∀ r, r ∈ ctx'.stackItem.jumps ↔
+    r ∈ ctx.stackItem.jumps ∨ ∃ b, P b ∧ b.jumps = some r
+  hjumps : ctx.withContent = true → ∀ r, r ∈ ctx'.stackItem.hereditaryJumps ↔
+    r ∈ ctx.stackItem.hereditaryJumps ∨ ∃ b, P b ∧ b.hereditaryJumps = some r
+
+theorem Adds.refl (ctx : ExecutionCtx) : Adds ctx ctx (fun _ => False) :=
+  ⟨.rfl' _, by simp, by simp, by simp⟩
+
+theorem Adds.trans {c1 c2 c3 : ExecutionCtx} {P Q : ExecutionBranch → Prop} (h1 : Adds c1 c2 P) (h2 : Adds c2 c3 Q) :
+    Adds c1 c3 (fun b => P b ∨ Q b) := by
+  have hw : c2.withContent = c1.withContent := h1.frame.2.2.1
+  refine ⟨h2.frame.trans h1.frame, ?_, ?_, ?_⟩
+  · intro i
+    rw [h2.ids, h1.ids]
+    constructor
+    · rintro ((h | ⟨b, hb, hi⟩) | ⟨b, hb, hi⟩)
+      · exact Or.inl h
+      · exact Or.inr ⟨b, Or.inl hb, hi⟩
+      · exact Or.inr ⟨b, Or.inr hb, hi⟩
+    · rintro (h | ⟨b, hb | hb, hi⟩)
+      · exact Or.inl (Or.inl h)
+      · exact Or.inl (Or.inr ⟨b, hb, hi⟩)
+      · exact Or.inr ⟨b, hb, hi⟩
+  · intro hc r
+    rw [h2.jumps (hw.trans hc), h1.jumps hc]
+    constructor
+    · rintro ((h | ⟨b, hb, hi⟩) | ⟨b, hb, hi⟩)
+      · exact Or.inl h
+      · exact Or.inr ⟨b, Or.inl hb, hi⟩
+      · exact Or.inr ⟨b, Or.inr hb, hi⟩
+    · rintro (h | ⟨b, hb | hb, hi⟩)
+      · exact Or.inl (Or.inl h)
+      · exact Or.inl (Or.inr ⟨b, hb, hi⟩)
+      · exact Or.inr ⟨b, hb, hi⟩
+  · intro hc r
+    rw [h2.hjumps (hw.trans hc), h1.hjumps hc]
+    constructor
+    · rintro ((h | ⟨b, hb, hi⟩) | ⟨b, hb, hi⟩)
+      · exact Or.inl h
+      · exact Or.inr ⟨b, Or.inl hb, hi⟩
+      · exact Or.inr ⟨b, Or.inr hb, hi⟩
+    · rintro (h | ⟨b, hb | hb, hi⟩)
+      · exact Or.inl (Or.inl h)
+      · exact Or.inl (Or.inr ⟨b, hb, hi⟩)
+      · exact Or.inr ⟨b, hb, hi⟩
+
+theorem Adds.congr {c1 c2 : ExecutionCtx} {P Q : ExecutionBranch → Prop} (h : Adds c1 c2 P) (hPQ : ∀ b, P b ↔ Q b) :
+    Adds c1 c2 Q := by
+  have : P = Q := funext fun b => propext (hPQ b)
+  rw [← this]; exact h
+
+theorem Adds.addBranch (ctx : ExecutionCtx) (b0 : ExecutionBranch) :
+    Adds ctx (ctx.addExecutionBranch b0) (fun b => b = b0) := by
+  refine ⟨ExecutionCtx.sameFrame_add _ _, ?_, ?_, ?_⟩
+  · intro i
+    unfold ExecutionCtx.addExecutionBranch
+    have : ∀ (it : StackItem), (match b0.hereditaryJumps with
+        | some h => { it with hereditaryJumps := it.hereditaryJumps ++ [h] }
+        | none => it).matchedIds = it.matchedIds := by intro it; cases b0.hereditaryJumps <;> rfl
+    cases ctx.withContent <;> cases hj : b0.jumps <;> cases hh : b0.hereditaryJumps <;>
+      simp [DenseHashSet.mem_union]
+  · intro hc r
+    unfold ExecutionCtx.addExecutionBranch
+    rw [hc]
+    cases hj : b0.jumps <;> cases hh : b0.hereditaryJumps <;> simp [hj, eq_comm]
+  · intro hc r
+    unfold ExecutionCtx.addExecutionBranch
+    rw [hc]
+    cases hj : b0.jumps <;> cases hh : b0.hereditaryJumps <;> simp [hh, eq_comm]
+
+theorem Adds.addOpt (ctx : ExecutionCtx) (ob : Option ExecutionBranch) :
+    Adds ctx (ctx.addOpt ob) (fun b => ob = some b) := by
+  cases ob with
+  | none => exact (Adds.refl ctx).congr (by simp)
+  | some b0 => exact (Adds.addBranch ctx b0).congr (by simp [eq_comm])
+
+theorem Vm.execAddrs_adds (vm : Vm) (st : SelectorState) (m : AttributeMatcher) :
+    ∀ (addrs : List Nat) (ctx ctx' : ExecutionCtx), vm.execAddrs st m addrs ctx = .ok ctx' →
+    Adds ctx ctx' (fun b => ∃ a ∈ addrs, vm.HoldsAt st ctx.stackItem.localName m a b) := by
+  intro addrs
+  induction addrs with
+  | nil =>
+    intro ctx ctx' h
+    simp [Vm.execAddrs, pure, Except.pure] at h; subst h
+    exact (Adds.refl ctx).congr (by simp)
+  | cons a rest ih =>
+    intro ctx ctx' h
+    simp only [Vm.execAddrs, bind, Except.bind] at h
+    split at h
+    · cases h
+    · rename_i instr hf
+      split at h
+      · cases h
+      · rename_i ob hex
+        have h2 := ih _ _ h
+        have h1 := Adds.addOpt ctx ob
+        refine (h1.trans h2).congr ?_
+        intro b
+        simp only [ExecutionCtx.addOpt_localName, List.mem_cons]
+        constructor
+        · rintro (h | ⟨a', ha', hh⟩)
+          · exact ⟨a, Or.inl rfl, instr, hf, by rw [hex, h]⟩
+          · exact ⟨a', Or.inr ha', hh⟩
+        · rintro ⟨a', ha' | ha', hh⟩
+          · subst ha'
+            obtain ⟨i', hf', he'⟩ := hh
+            rw [hf] at hf'; cases hf'
+            rw [hex] at he'; cases he'
+            exact Or.inl rfl
+          · exact Or.inr ⟨a', ha', hh⟩
+
+/-- the selector state and matcher a with-attributes pass uses for `ctx` -/
+def Vm.Holds (vm : Vm) (m : AttributeMatcher) (ctx : ExecutionCtx) (a : Nat) (b : ExecutionBranch) : Prop :=
+  vm.HoldsAt (vm.stack.buildState ctx.stackItem.localName) ctx.stackItem.localName m a b
+
+theorem Vm.Holds_congr (vm : Vm) (m : AttributeMatcher) {c1 c2 : ExecutionCtx} (h : c2.SameFrame c1) (a b) :
+    vm.Holds m c2 a b ↔ vm.Holds m c1 a b := by
+  unfold Vm.Holds; rw [h.1]
+
+theorem Vm.execSetsWithAttrs_adds (vm : Vm) (m : AttributeMatcher) :
+    ∀ (sets : List AddressRange) (ctx ctx' : ExecutionCtx), vm.execSetsWithAttrs m sets ctx = .ok ctx' →
+    Adds ctx ctx' (fun b => ∃ r ∈ sets, ∃ a ∈ r.addrs, vm.Holds m ctx a b) := by
+  intro sets
+  induction sets with
+  | nil =>
+    intro ctx ctx' h
+    simp [Vm.execSetsWithAttrs, pure, Except.pure] at h; subst h
+    exact (Adds.refl ctx).congr (by simp)
+  | cons r rest ih =>
+    intro ctx ctx' h
+    simp only [Vm.execSetsWithAttrs, bind, Except.bind] at h
+    split at h
+    · cases h
+    · rename_i c1 h1
+      have a1 := Vm.execAddrs_adds vm _ m _ _ _ h1
+      have a2 := ih _ _ h
+      refine (a1.trans a2).congr ?_
+      intro b
+      have hc : ∀ a, vm.Holds m c1 a b ↔ vm.Holds m ctx a b := fun a => Vm.Holds_congr vm m a1.frame a b
+      simp only [List.mem_cons, hc]
+      constructor
+      · rintro (⟨a, ha, hh⟩ | ⟨r', hr', a, ha, hh⟩)
+        · exact ⟨r, Or.inl rfl, a, ha, hh⟩
+        · exact ⟨r', Or.inr hr', a, ha, hh⟩
+      · rintro ⟨r', hr' | hr', a, ha, hh⟩
+        · subst hr'; exact Or.inl ⟨a, ha, hh⟩
+        · exact Or.inr ⟨r', hr', a, ha, hh⟩
+
+/-- What running everything with attributes adds: the branches of the matching instructions among
+    the entry points, the parent's jumps and the active hereditary jumps. -/
+theorem Vm.execAllWithAttrs_adds (vm : Vm) (m : AttributeMatcher) (ctx ctx' : ExecutionCtx)
+    (h : vm.execAllWithAttrs m ctx = .ok ctx') :
+    Adds ctx ctx' (fun b => ∃ a, vm.Holds m ctx a b ∧
+      (a ∈ vm.program.entryPoints.addrs ∨ (∃ r ∈ vm.parentJumps, a ∈ r.addrs) ∨
+        (∃ r ∈ vm.activeRanges, a ∈ r.addrs))) := by
+  simp only [Vm.execAllWithAttrs, Vm.execJumpsWithAttrs, Vm.execHereditaryJumpsWithAttrs,
+    Vm.execSetsFromPtr_zero, bind, Except.bind] at h
+  split at h
+  · cases h
+  · rename_i c1 h1
+    split at h
+    · cases h
+    · rename_i c2 h2
+      have a1 := Vm.execAddrs_adds vm _ m _ _ _ h1
+      have a2 := Vm.execSetsWithAttrs_adds vm m _ _ _ h2
+      have a3 := Vm.execSetsWithAttrs_adds vm m _ _ _ h
+      refine ((a1.trans a2).trans a3).congr ?_
+      intro b
+      have hc1 : ∀ a, vm.Holds m c1 a b ↔ vm.Holds m ctx a b := fun a => Vm.Holds_congr vm m a1.frame a b
+      have hc2 : ∀ a, vm.Holds m c2 a b ↔ vm.Holds m ctx a b :=
+        fun a => Vm.Holds_congr vm m (a2.frame.trans a1.frame) a b
+      simp only [hc1, hc2]
+      constructor
+      · rintro ((⟨a, ha, hh⟩ | ⟨r, hr, a, ha, hh⟩) | ⟨r, hr, a, ha, hh⟩)
+        · exact ⟨a, hh, Or.inl (by simpa [AddressRange.addrs] using ha)⟩
+        · exact ⟨a, hh, Or.inr (Or.inl ⟨r, hr, ha⟩)⟩
+        · exact ⟨a, hh, Or.inr (Or.inr ⟨r, hr, ha⟩)⟩
+      · rintro ⟨a, hh, ha | ⟨r, hr, ha⟩ | ⟨r, hr, ha⟩⟩
+        · exact Or.inl (Or.inl ⟨a, by simpa [AddressRange.addrs] using ha, hh⟩)
+        · exact Or.inl (Or.inr ⟨r, hr, a, ha, hh⟩)
+        · exact Or.inr ⟨r, hr, a, ha, hh⟩
 end LolHtml.SelVM
